@@ -33,17 +33,20 @@ type borrow struct {
 	prop       string
 	rules      []string
 	funcPrefix string
-	keyHas     string
+	keyHas     string   // the obligation's function + construct contains this …
+	keyHasAny  []string // … or one of these
 }
 
 // alsoRuns lists, per property, what it borrows (explicitly; not transitive).
 var alsoRuns = map[string][]borrow{
 	// folding and restore rely on complete state serialization and on canonical map keys in the loaded state
-	"C02": {{prop: "C03"}, {prop: "C14", rules: []string{"M6"}}},
+	// … the log copy is compacted with DeleteRange over an inclusive range (C09.L4) and its entries round-trip (C18.F1-F3)
+	"C02": {{prop: "C03"}, {prop: "C14", rules: []string{"M6"}}, {prop: "C09", rules: []string{"L4"}}, {prop: "C18", rules: []string{"F1", "F2", "F3"}}},
 	"C03": {{prop: "C14", rules: []string{"M6"}}},
 	// acknowledged entries survive snapshots (C02, C03), the store honours its contract (C09 + its entry codec), and
 	// "delivers exactly once" includes the resume protocol (C04)
-	"C05": {{prop: "C02"}, {prop: "C03"}, {prop: "C09"}, {prop: "C18", rules: []string{"F1", "F2", "F3"}}, {prop: "C04"}, {prop: "C14", rules: []string{"M6"}}},
+	"C04": {{prop: "C08"}}, // the resume protocol relies on Get/GetNext honouring their contract
+	"C05": {{prop: "C02"}, {prop: "C03"}, {prop: "C09"}, {prop: "C18"}, {prop: "C04"}, {prop: "C08"}, {prop: "C14", rules: []string{"M6"}}},
 	// the state invariants that justify look-ups in C06.G3 are preserved iff C14's pairing rules hold
 	"C06": {{prop: "C14"}},
 	// the marked entry lands in a store that honours its contract (C09, F2/F3); the duplicate-detection marker advances for a
@@ -51,7 +54,8 @@ var alsoRuns = map[string][]borrow{
 	// compaction, and restore rebuilds from it (C02.N1/N3/N4/N5); the marker and everything else survives a snapshot (C03)
 	"C07": {{prop: "C09"}, {prop: "C18", rules: []string{"F2", "F3"}}, {prop: "C10", rules: []string{"U3"}}, {prop: "C02", rules: []string{"N1", "N3", "N4", "N5"}}, {prop: "C03"}},
 	// "under every interleaving": the lock discipline of the output stream (C20 restricted to package outputstream)
-	"C08": {{prop: "C20", funcPrefix: "outputstream."}},
+	// … and "returns exactly what was added": the batch codec is symmetric (C18.F4)
+	"C08": {{prop: "C20", funcPrefix: "outputstream."}, {prop: "C18", rules: []string{"F4"}}},
 	// entries are encoded/decoded field by field without loss
 	"C09": {{prop: "C18", rules: []string{"F1", "F2", "F3"}}},
 	// the tombstone written for a message of death keeps the client message id and the same slot; compaction folds it; the
@@ -61,11 +65,15 @@ var alsoRuns = map[string][]borrow{
 	"C11": {{prop: "C17", rules: []string{"Y1", "Y3", "Y4"}}},
 	// recipient sets are computed from the membership relations whose pairing C14 checks
 	// … and from the nickname index, which a restore must rebuild for every session with a nickname (C03.K4)
-	"C12": {{prop: "C14"}, {prop: "C03", rules: []string{"K4"}}},
+	// … and nothing but the closing line reaches a session after it ended (C17.Y5)
+	"C12": {{prop: "C14"}, {prop: "C03", rules: []string{"K4"}}, {prop: "C17", rules: []string{"Y5"}}},
 	// operator status lives in per-member arrays: a restore that shares one array between members hands out operator status
-	"C13": {{prop: "C14", rules: []string{"M1"}, keyHas: "fresh status array"}},
+	// … and privileges must survive a snapshot: operator flag, channel settings, member status, invitations, services links
+	"C13": {{prop: "C14", rules: []string{"M1"}, keyHas: "fresh status array"},
+		{prop: "C03", keyHasAny: []string{".Operator", ".Server", ".modes", ".Modes", ".bans", ".Bans", ".key", ".Key", ".invitedTo", ".InvitedTo", "channel.nicks", ".Nicks", ".Pass"}}},
 	// ended sessions leave every relation and the session table (C17.Y4)
-	"C14": {{prop: "C17", rules: []string{"Y4"}}},
+	// … and a restore rebuilds the derived indexes consistently (C03.K4/K4b)
+	"C14": {{prop: "C17", rules: []string{"Y4"}}, {prop: "C03", rules: []string{"K4"}}},
 	// replicas that load the configuration from a snapshot must get the same one
 	// … and the ban table must be a usable map after every way of installing a configuration (C06.G5), else the next
 	// GLINE kills the replica that restored and the others keep the ban
@@ -113,7 +121,7 @@ func Run(id string, p *load.Program, tier string) *report.Result {
 		}
 		bw := bw
 		expl, rules := c.R.Explanation, c.R.Rules
-		scoped := len(bw.rules) > 0 || bw.funcPrefix != "" || bw.keyHas != ""
+		scoped := len(bw.rules) > 0 || bw.funcPrefix != "" || bw.keyHas != "" || len(bw.keyHasAny) > 0
 		if scoped {
 			c.R.Filter = func(o *report.Obligation) bool {
 				if len(bw.rules) > 0 {
@@ -133,6 +141,17 @@ func Run(id string, p *load.Program, tier string) *report.Result {
 				if bw.keyHas != "" && !strings.Contains(o.Func+" "+o.Construct, bw.keyHas) {
 					return false
 				}
+				if len(bw.keyHasAny) > 0 {
+					hit := false
+					for _, k := range bw.keyHasAny {
+						if strings.Contains(o.Construct, k) {
+							hit = true
+						}
+					}
+					if !hit {
+						return false
+					}
+				}
 				return true
 			}
 		}
@@ -149,6 +168,9 @@ func Run(id string, p *load.Program, tier string) *report.Result {
 		}
 		if bw.keyHas != "" {
 			what += " (obligations about *" + bw.keyHas + "*)"
+		}
+		if len(bw.keyHasAny) > 0 {
+			what += " (obligations about " + strings.Join(bw.keyHasAny, ", ") + ")"
 		}
 		c.R.Explanation = expl + " Additionally runs " + what + " (necessary conditions of this property as well; reported as " + id + "/" + bw.prop + ".*)."
 		c.R.Rules = append(rules, what+" (borrowed)")
